@@ -209,6 +209,10 @@ def one(seed, i, res):
                         ("missing-end-key-none", ok_succeeded, sf, dict(ef, no_such_key=None), False),
                         ("missing-start-key-none", ok_succeeded, dict(sf, no_such_key=None), ef, False)]
             # a later action of the same type that would satisfy the wrong expectation must not rescue the assertion
+            if len(want) >= 2 and "nid" in want[-1][0]["start"]:
+                later = want[-1][0]
+                variants.append(("start-fields-of-a-later-entry", ok_succeeded, {"nid": later["nid"]}, {}, False))
+                variants.append(("start-fields-and-outcome-of-a-later-entry", later["status"] == "succeeded", {"nid": later["nid"]}, {}, False))
             for label, succ, s_, e_, expect_ok in variants:
                 try:
                     r = assertHasAction(tc, logger, T, succ, s_, e_)
@@ -240,8 +244,13 @@ def one(seed, i, res):
         if want:
             first = want[0]
             sub = {k: v for k, v in first["fields"].items() if rng.random() < 0.6}
-            for label, f_, expect_ok in (("true-subset", sub, True), ("none", None, True), ("wrong-value", dict(sub, nid=-1), False),
-                                         ("missing-key", dict(sub, no_such_key=0), False), ("missing-key-none", dict(sub, no_such_key=None), False)):
+            mvariants = [("true-subset", sub, True), ("none", None, True), ("wrong-value", dict(sub, nid=-1), False),
+                         ("missing-key", dict(sub, no_such_key=0), False), ("missing-key-none", dict(sub, no_such_key=None), False)]
+            if len(want) >= 2:
+                # fields that only a later message of the type has must not satisfy the assertion about the first one
+                mvariants.append(("fields-of-a-later-entry", {"nid": want[-1]["nid"]}, False))
+                mvariants.append(("all-fields-of-a-later-entry", dict(want[1]["fields"]), json_equal(want[1]["fields"], first["fields"])))
+            for label, f_, expect_ok in mvariants:
                 try:
                     r = assertHasMessage(tc, logger, T, f_)
                     passed = True
